@@ -40,6 +40,17 @@ def main(chk: core.Check, replay):
                           f"ill-formed text (fault {o['fault']['kind']} at {site}) was loaded and code was generated: "
                           f"one of two conflicting definitions was silently kept")
     chk.extra["faults"] = kinds
+    # conformance note (never a verdict): does the staged loader of Pipeline.tla also predict WHICH error is raised?
+    agree, differ = 0, {}
+    for o in out:
+        if o["accepted"] or o["spec_outcome"] == "ok":
+            continue
+        if o["exception"] == o["spec_outcome"]:
+            agree += 1
+        else:
+            k = f"{o['fault']['kind']}: spec {o['spec_outcome']}, code {o['exception']}"
+            differ[k] = differ.get(k, 0) + 1
+    chk.extra["staged_loader_conformance"] = {"same_exception_class": agree, "other_class": dict(sorted(differ.items(), key=lambda kv: -kv[1])[:12])}
     if set(kinds) != KINDS:
         raise core.MachineryFailure(f"fault kinds without a text or unknown: {sorted(set(kinds) ^ KINDS)}")
     chk.extra["wellformed_but_rejected"] = sum(1 for o in out if o["wellformed"] and not o["accepted"])
